@@ -65,6 +65,20 @@ for _p, _t in (("C06", "line commands and addresses"), ("C14", "substitute"), ("
         note="Sampled behaviours (seeded), not exhaustive. Known deviations are recognised only when the recorded state "
              "equals the operational transcription kept in the spec (Ex!SubCode).")
 
+for _p, _t in (("C02", "quit / edit / buffer refusals, modified-flag soundness, no silent loss"),
+               ("C20", "isolation of buffers across switches, no re-read of an open path")):
+    CHECKS[_p] = dict(
+        level="model_checking",
+        text="Bufs.tla models the buffer table (MRU order, 16 slots as a parameter), files with modification stamps, the "
+             "per-buffer undo log and sequence numbers (Lbuf.tla) and every command that reads, writes or leaves a buffer; "
+             "TLC checks DirtySound, NoLoss, TableOK and refusal rules exhaustively in a small scope (MC_Bufs) and on every "
+             "step of seeded behaviours, which are typed in lock-step into the traced vi -s -e with external file events "
+             "performed by the driver; table, text, modified flag, undo position, current line, status, message class and the "
+             "files on disk are compared (%s)." % _t,
+        design="8/" + _p, technique="TLA+ model (Bufs.tla) checked by TLC; behaviours replayed in lock-step into the traced binary (M1)",
+        note="Model scope NB=2..3 exhaustively; conformance sampled at NB=16. Text of non-current buffers is compared by "
+             "length and hash. A session that straddles a wall-clock second is re-run (file times have 1 s granularity).")
+
 NOT_YET = {}
 
 def main():
